@@ -7,6 +7,7 @@ import FitProps.C14
 import FitProofs.EncodeItems
 import FitProofs.EncodeFile
 import FitProofs.DecodeAccepts
+import FitProps.C04
 /-!
   C05 — Encode emits a well-formed, self-describing FIT stream.
 -/
@@ -230,6 +231,16 @@ theorem decode_accepts_encode (P : Profile) (hwf : ProfileWF P = true) (arch : E
     (o : Opts) (g : Globals) (tail : Bytes) (stop : Stop) :
     (decodeSpec P o .full g (bs ++ tail) stop).1.success :=
   Fit.decode_accepts_encode P hwf arch f f' bs h hdom hsmall o g tail stop
+
+
+/-- **`CheckIntegrity` accepts what `Encode` wrote** (same domain): header CRC and file CRC are
+    the ones the decoder's integrity pass recomputes. -/
+theorem encode_passes_integrity (P : Profile) (hwf : ProfileWF P = true) (arch : Endian) (f f' : FileSt) (bs : Bytes)
+    (h : encode P arch f = .ok bs f') (hdom : FileInDomain P arch f) (hsmall : bs.length < 4294967296)
+    (o : Opts) (g : Globals) (tail : Bytes) (stop : Stop) :
+    (decodeSpec P o .crcOnly g (bs ++ tail) stop).1.success :=
+  C04.accepted_passes_integrity P o o g (bs ++ tail) stop
+    (Fit.decode_accepts_encode P hwf arch f f' bs h hdom hsmall o g tail stop)
 
 /-- the hypotheses are satisfiable: the regenerated profile is well-formed and encodes a file_id
     message (kernel-evaluated) -/
